@@ -184,6 +184,10 @@ func check(prop, tier string) int {
 					continue
 				}
 			}
+			if o.ThoroughOnly && tier != "thorough" {
+				assumed["not checked in the quick tier (needs about a minute of cvc5; run the thorough tier): "+o.Name] = true
+				continue
+			}
 			sel = append(sel, o)
 			if o.Kind != "vacuity" && o.Kind != "aux" && (o.Kind != "safe" || wantsSafe) {
 				nContract++
